@@ -3,7 +3,8 @@
 Archives a verified seeded change from /tmp/seed/out/<Cxx>/<variant> as /verif/seeded/<Cxx>-<variant>/."""
 import json, os, shutil, sys
 pid, var, det, checks, note = sys.argv[1:6]
-src = f"/tmp/seed/out/{pid}/{var}"
+import os as _os
+src = f"{_os.environ.get('SEED_ROOT', '/tmp/seed/out')}/{pid}/{var}"
 dst = f"/verif/seeded/{pid}-{var}"
 os.makedirs(dst, exist_ok=True)
 for f in os.listdir(src):
